@@ -11,7 +11,10 @@ THR_ODD = [-1.0, -0.0, float("nan"), float("inf"), 1e300, -1e-300]
 
 
 def gen_rule(rng, family, finite_only=False):
-    """returns dict with 'family', 'toks' (list) and the fields (for Coq rendering)"""
+    """returns dict with 'family', 'toks' (list) and the fields (for Coq rendering).
+    finite_only (the JSON round trip of C18): finite float thresholds only, and integer hotspot thresholds up to
+    2^64-2; every other user stays inside the numeric range the properties quantify over (thresholds 0..1e6):
+    beyond it the hotspot checkers' u64 arithmetic (threshold + burst, elapsed * threshold) overflows"""
     def thr():
         if finite_only or rng.chance(0.85):
             return rng.pick(THR_SANE + [float(rng.randint(0, 1000))])
@@ -28,7 +31,7 @@ def gen_rule(rng, family, finite_only=False):
     elif family == 1:
         spec = [[v, rng.pick([0, 1, 5, 10 ** 6])] for v in range(rng.pick([0, 0, 1, 3]))]
         d = {"res": res, "metric": rng.pick([0, 1]), "ctrl": rng.pick([0, 1]), "idx": rng.pick([-3, -1, 0, 0, 1, 3]),
-             "key": rng.pick([0, 0, 1, 2]), "thr": rng.pick([0, 1, 5, 10 ** 6, 2 ** 53 + 1, 2 ** 64 - 2]), "maxq": rng.pick([0, 1, 2000]),
+             "key": rng.pick([0, 0, 1, 2]), "thr": rng.pick([0, 1, 5, 10 ** 6] + ([2 ** 53 + 1, 2 ** 64 - 2] if finite_only else [])), "maxq": rng.pick([0, 1, 2000]),
              "burst": rng.pick([0, 1, 10 ** 6]), "dur": rng.pick([0, 1, 1, 3, 600]), "cap": rng.pick([0, 0, 1, 100]),
              "spec": spec}
         toks = [1, d["res"], d["metric"], d["ctrl"], d["idx"], d["key"], d["thr"], d["maxq"], d["burst"], d["dur"], d["cap"],
